@@ -2,6 +2,7 @@ import CandidModel.Wire
 import CandidModel.Proofs.DeWellFormed
 import CandidModel.Proofs.DeCoerce
 import CandidModel.Proofs.DeCoerceWf
+import CandidModel.Proofs.DeNeutral
 /-
   C02 — Decoding at an expected type is exactly the specification's coercion.
   The decode/encode round-trip theorems live in Props/C03.lean and Props/C10.lean; here: facts about the coercion
@@ -242,16 +243,18 @@ open Candid.De in
 which the specification's reader `M⁻¹` (`Wire.decVal`, at some nesting budget `f`) reads `v` and leaves `r`" — so
 numbers, lengths and variant indices in non-minimal (padded) LEB128 are covered too.  Unless one side runs out of its
 depth budget, the decoder returns the coercion of `v` and leaves exactly `r`, or both report a subtype failure, or
-both fail. -/
+both fail.  The wire type may contain function and service references (`OKWr`): they are skipped where the expected
+type has no use for them, read as principals where it asks for one, and fail every other expected type on both
+sides; only the *expected* type is first order. -/
 theorem decoding_any_wellformed_value_is_its_coercion (env : Env) (m n : Nat) (w e : Ty) (v : Val) (f : Nat)
-    (r : Bytes) (s : St) (hd : decVal env f w s.input = .ok (v, r)) (hu : Unmetered s) (hw : OKW env w) (he : OKE env e)
+    (r : Bytes) (s : St) (hd : decVal env f w s.input = .ok (v, r)) (hu : Unmetered s) (hw : OKWr env w) (he : OKE env e)
     : CoRel (coerce env false env n w e v) (deAny env .idl m w e s) s r :=
   typed_read_w env m n w e v f r s hd hu hw he trivial
 
 open Candid.De in
 /-- skipping any well-formed value consumes exactly what the specification's reader consumes -/
 theorem skipping_any_wellformed_value_consumes_it (env : Env) (m : Nat) (w : Ty) (v : Val) (f : Nat) (r : Bytes) (s : St)
-    (hd : decVal env f w s.input = .ok (v, r)) (hu : Unmetered s) (hw : OKW env w) :
+    (hd : decVal env f w s.input = .ok (v, r)) (hu : Unmetered s) (hw : OKWr env w) :
     deIgnored env m w s = .err .limit ∨ ∃ x, deIgnored env m w s = .ok x { s with input := r } :=
   (skip_all_w env m).1 w v f r s hd hu hw trivial
 
@@ -267,7 +270,7 @@ and returns exactly the coerced values. -/
 theorem decoding_a_wellformed_message_is_the_specification (bs : Bytes) (env : Env) (expected : List Ty) (hd : Header)
     (body : Bytes) (vs : List Val) (hp : parseHeader bs = .ok (hd, body)) (hne : expected.isEmpty = false)
     (hda : decArgs (mergeEnv hd.table env expected).1 Wire.defaultFuel hd.args body = .ok (vs, []))
-    (hokw : ∀ w ∈ hd.args, OKW (mergeEnv hd.table env expected).1 w)
+    (hokw : ∀ w ∈ hd.args, OKWr (mergeEnv hd.table env expected).1 w)
     (hoke : ∀ e ∈ (mergeEnv hd.table env expected).2, OKE (mergeEnv hd.table env expected).1 e)
     (hlen : (mergeEnv hd.table env expected).1.length + 2 ≤ De.defaultFuel) :
     ArgRel (decodeArgs bs env expected false false) (decodeWithConfig bs env expected ⟨none, none⟩) := by
@@ -278,5 +281,63 @@ open Candid.De in
 /-- non-vacuity: a padded length and a padded number are read by the specification's reader (`vec nat`, one element,
 the length written as `0x81 0x00`, the number 5 as `0x85 0x00`) -/
 example : decVal [] 3 (.vec (.prim .nat)) [0x81, 0x00, 0x85, 0x00, 0xff] = .ok (.vec [.nat 5], [0xff]) := by rfl
+
+/-! ## both halves together, under any quotas -/
+
+open Candid.De in
+/-- **What the decoder returns, under any quotas, is the specification's answer**: whenever
+`De.decodeWithConfig` returns values `vs'` for a byte string whose header declares the argument types `hd.args` —
+under any decoding / skipping quota — the body is read by the specification's reader `M⁻¹` as values `ws` of those
+types with nothing left over (the message is well formed), and the specification's coercion of `ws` to the expected
+types is `vs'` (or runs out of its own depth budget `n`).  Hypotheses: the expected types are closed in the working
+environment (`CleanCtx`, `cleanTy`) and first order with fields in ascending order (`OKW`, `OKE`).  Put together from
+`quotas_never_change_the_result` (C07), `decoder_accepts_only_wellformed_messages` and `message_rel_w`. -/
+theorem accepted_message_is_wellformed_and_its_values_are_the_coercion (bs : Bytes) (env : Env) (expected : List Ty)
+    (cfg : Config) (vs' : List Val) (st : St) (hd : Header) (body : Bytes) (S : List String) (n : Nat)
+    (h : decodeWithConfig bs env expected cfg = .ok vs' st) (hp : parseHeader bs = .ok (hd, body))
+    (hne : expected.isEmpty = false)
+    (hclean : CleanCtx (mergeEnv hd.table env expected).1 S)
+    (hcl : ∀ e ∈ (mergeEnv hd.table env expected).2, cleanTy S e = true)
+    (hokw : ∀ w ∈ hd.args, OKWr (mergeEnv hd.table env expected).1 w)
+    (hoke : ∀ e ∈ (mergeEnv hd.table env expected).2, OKE (mergeEnv hd.table env expected).1 e)
+    (hlen : (mergeEnv hd.table env expected).1.length + 2 ≤ De.defaultFuel) :
+    ∃ m ws, decArgs (mergeEnv hd.table env expected).1 m hd.args body = .ok (ws, []) ∧
+      (coerceArgs (mergeEnv hd.table env expected).1 n false (mergeEnv hd.table env expected).1 hd.args ws
+          (mergeEnv hd.table env expected).2 = .err .limit ∨
+       coerceArgs (mergeEnv hd.table env expected).1 n false (mergeEnv hd.table env expected).1 hd.args ws
+          (mergeEnv hd.table env expected).2 = .ok vs') := by
+  obtain ⟨st', hun⟩ := decode_quota_neutral bs env expected cfg vs' st h
+  obtain ⟨hd', body', hp', hwf⟩ := decode_ok_wellformed bs env expected ⟨none, none⟩ vs' st' hun
+  rw [hp] at hp'
+  simp only [Outcome.ok.injEq, Prod.mk.injEq] at hp'
+  obtain ⟨e1, e2⟩ := hp'
+  subst e1 e2
+  have hwe : workEnv hd env expected = mergeEnv hd.table env expected := by
+    simp only [workEnv, hne, Bool.false_eq_true, if_false]
+  rw [hwe] at hwf
+  obtain ⟨m, ws, hda⟩ := hwf S hclean hcl
+  refine ⟨m, ws, hda, ?_⟩
+  have hrel := message_rel_w bs env expected hd body ws m n hp hne hda hokw hoke hlen
+  rw [hun] at hrel
+  rcases hrel with hl | hl | hl
+  · exact Or.inl hl
+  · simp at hl
+  · cases hc : coerceArgs (mergeEnv hd.table env expected).1 n false (mergeEnv hd.table env expected).1 hd.args ws
+        (mergeEnv hd.table env expected).2 with
+    | ok v'' => rw [hc] at hl; exact Or.inr (by rw [hl.1])
+    | err k => rw [hc] at hl; exact absurd hl (by simp)
+    | panic q => rw [hc] at hl; exact absurd hl (by simp)
+
+open Candid.De in
+/-- non-vacuity with a reference on the wire: a record with a function reference and a number, read at a record type
+that only asks for the number — the conditions hold, the specification's reader reads the bytes, the coercion drops
+the reference -/
+example :
+    let w : Ty := .record (.cons (.id 0) (.func .nil .nil []) (.cons (.id 1) (.prim .nat) .nil))
+    let e : Ty := .record (.cons (.id 1) (.prim .nat) .nil)
+    allTy (fun t => headOKW t && unitLit [] t) w = true ∧ allTy headOK e = true ∧
+      decVal [] 3 w [1, 1, 1, 0xaa, 1, 0x66, 7] = .ok (.record [(.id 0, .func [0xaa] "f"), (.id 1, .nat 7)], []) ∧
+      coerce [] false [] 3 w e (.record [(.id 0, .func [0xaa] "f"), (.id 1, .nat 7)]) = .ok (.record [(.id 1, .nat 7)]) := by
+  refine ⟨by decide, by decide, by rfl, by rfl⟩
 
 end Candid.Props.C02
